@@ -119,6 +119,7 @@ var _ utils.PriorityQueue
 //@ pure
 //@ noalloc
 //@ ensures [metric] ret == Distance(recv, arg0, arg1)
+//@ ensures [non-negative: each of the three implementations (space.Euclidean, Manhattan, Cosine) is under contract with this clause] !(ret < 0)
 //@ modifies nothing
 
 //@ func index.newHnswVertex
